@@ -209,9 +209,8 @@ class Gfa(Lines,GraphOperations,RGFA):
         self.add_line(line.rstrip('\r\n'))
         if self._progress:
           self._progress_log("read_file")
-    if self._line_queue:
-      self._version = self._version_guess
-      self.process_line_queue()
+    # as in the constructor: determine the version, also if no line is queued
+    self.process_line_queue()
     if self._progress:
       self._progress_log_end("read_file")
     if self._vlevel >= 1:
